@@ -32,7 +32,8 @@ def gen_spec(rng, small=False):
                     names, 'T%d' % (tid + ci * 10)))[:7] + (
                         '' if tid < 1000 else 'X'))[:8],
                 'nl': int(rng.integers(1, 3 if small else 5)),
-                'scale': float(rng.choice([1.0, 1e9, 1e12, 0.5, 1e-3])),
+                'scale': float(rng.choice([1.0, 1e9, 1e12, 0.5, 1e-3, -1.0,
+                                           -2.5e-3])),
                 'unit': str(rng.choice(['ppbv', 'hPa', 'K', 'm', 'kg',
                                         'molec/cm2/s'])),
                 'molwt': float(rng.choice([4.6e-2, 4.8e-2, 2.8e-2, 1.2e-2])),
